@@ -248,6 +248,13 @@ func (cs *clientStream) SendMsg(m interface{}) error {
 	if done, err := cs.readErrorIfDone(); done {
 		return err
 	}
+	if err := cs.ctx.Err(); err != nil {
+		// The caller has cancelled the call, or its deadline has passed, and
+		// the read loop has not got round to ending the stream yet: a
+		// transport that does not look at the context when it need not wait
+		// would still take the message.
+		return err
+	}
 	verifhook.At("cs.send.window", cs.id)
 
 	body, err := cs.codec.Marshal(m)
